@@ -142,8 +142,10 @@ Proof.
     assert (Hx : N.of_nat (List.length l) < pow256 n) by lia.
     rewrite <- app_assoc.
     destruct (dec_le_bytes_prefix n _ (l ++ rest) Hx) as [H1 [H2 H3]].
-    unfold dec_prim. rewrite H1, H2, H3. cbv zeta. rewrite Nat2N.id.
-    rewrite (ltb_app_false _ l rest _ eq_refl).
+    unfold dec_prim. rewrite H1, H2, H3. cbv zeta.
+    replace (N.of_nat (List.length (l ++ rest)) <? N.of_nat (List.length l)) with false
+      by (symmetry; apply N.ltb_ge; rewrite app_length; lia).
+    rewrite Nat2N.id.
     rewrite (firstn_app_len _ l rest _ eq_refl), (skipn_app_len _ l rest _ eq_refl).
     reflexivity.
 Qed.
